@@ -77,6 +77,10 @@ func describeArg(v ssa.Value) string {
 	case *ssa.Field:
 		st := x.X.Type().Underlying().(*types.Struct)
 		return describeArg(x.X) + "." + st.Field(x.Field).Name()
+	case *ssa.FieldAddr:
+		if st := derefStruct(x.X.Type()); st != nil {
+			return "&" + describeArg(x.X) + "." + st.Field(x.Field).Name()
+		}
 	case *ssa.Parameter:
 		return fmt.Sprintf("param%d", paramIndex(x))
 	case *ssa.UnOp:
